@@ -141,11 +141,18 @@ fn error_parts(e: &Error) -> (String, String, Option<usize>) {
 /// One execution: key list `keys` (indexes into KEYS), completion order `perm` (positions in
 /// the list; None = free-running without gates).
 async fn execute(addr: &str, exec_root: &Path, keys: &[usize], perm: Option<&[usize]>) -> Outcome {
+    let named: Vec<(String, Option<String>)> = keys.iter().map(|k| (KEYS[*k].0.to_string(), KEYS[*k].1.map(|v| v.to_string()))).collect();
+    execute_named(addr, exec_root, &named, perm).await
+}
+
+/// Like `execute`, for explicit (name, version) keys; the client storage under `exec_root` is
+/// whatever earlier executions with the same root left there.
+async fn execute_named(addr: &str, exec_root: &Path, keys: &[(String, Option<String>)], perm: Option<&[usize]>) -> Outcome {
     let config = client_config(addr, exec_root);
-    let versions: Vec<Option<Version>> = keys.iter().map(|k| KEYS[*k].1.map(|v| Version::parse(v).unwrap())).collect();
+    let versions: Vec<Option<Version>> = keys.iter().map(|(_, v)| v.as_ref().map(|v| Version::parse(v).unwrap())).collect();
     let mut map: IndexMap<BorrowedPackageKey, SourceSpan> = IndexMap::new();
-    for (i, k) in keys.iter().enumerate() {
-        map.insert(BorrowedPackageKey::from_name_and_version(KEYS[*k].0, versions[i].as_ref()), SourceSpan::new((100 * (i + 1)).into(), 1));
+    for (i, (n, _)) in keys.iter().enumerate() {
+        map.insert(BorrowedPackageKey::from_name_and_version(n, versions[i].as_ref()), SourceSpan::new((100 * (i + 1)).into(), 1));
     }
     let (tx, rx) = mpsc::channel::<String>();
     let resolver = match RegistryPackageResolver::new_with_config(None, &config, Some(Box::new(Bar(tx)))).await {
@@ -359,6 +366,30 @@ fn key_lists(tier: Tier) -> Vec<Vec<usize>> {
     out
 }
 
+/// (keys of the first resolution, keys of the second, completion order of the second): versions of
+/// one package that has release 1.0.0 before the first resolution and 2.0.0 after it.
+fn history_specs(tier: Tier) -> Vec<(Vec<Option<&'static str>>, Vec<Option<&'static str>>, Vec<usize>)> {
+    let firsts: Vec<Vec<Option<&'static str>>> = if tier == Tier::Thorough { vec![vec![Some("1.0.0")], vec![None]] } else { vec![vec![Some("1.0.0")]] };
+    let ks: [Option<&'static str>; 3] = [None, Some("1.0.0"), Some("2.0.0")];
+    let mut seconds: Vec<Vec<Option<&'static str>>> = ks.iter().map(|k| vec![*k]).collect();
+    for a in 0..3 {
+        for b in 0..3 {
+            if a != b {
+                seconds.push(vec![ks[a], ks[b]]);
+            }
+        }
+    }
+    let mut out = Vec::new();
+    for f in &firsts {
+        for s in &seconds {
+            for p in permutations(s.len()) {
+                out.push((f.clone(), s.clone(), p));
+            }
+        }
+    }
+    out
+}
+
 fn main() {
     let args: Vec<String> = std::env::args().skip(1).collect();
     if args.first().map(|s| s.as_str()) != Some("C20") {
@@ -377,6 +408,8 @@ fn main() {
     let mut samples = Samples::new(3);
     let mut outcomes: BTreeMap<String, u64> = BTreeMap::new();
     let mut lists_n = 0u64;
+    let mut histories = 0u64;
+    let mut history_executions = 0u64;
     let viols: Vec<(Viol, Value)> = rt.block_on(async {
         let mut viols: Vec<(Viol, Value)> = Vec::new();
         // server
@@ -397,6 +430,7 @@ fn main() {
             publish(&pub_cfg, n, v, content(n, v, *s), seen.insert(*n)).await.unwrap_or_else(|e| mc_core::machinery_error(&format!("publishing {n}@{v}: {e:#}")));
         }
         let cases: Vec<(Vec<usize>, Option<Vec<usize>>)> = match &replay {
+            Some(case) if case.get("history").is_some() => vec![],
             Some(case) => {
                 let keys: Vec<usize> = serde_json::from_value(case["keys"].clone()).unwrap();
                 let perm: Option<Vec<usize>> = serde_json::from_value(case["order"].clone()).unwrap();
@@ -451,6 +485,62 @@ fn main() {
                 viols.push((viol, json!({"keys": keys, "order": perm})));
             }
         }
+        // histories: a resolution that finds client storage left by an earlier resolution, with a
+        // release published in between (the state reached from elsewhere than the initial one)
+        {
+            let specs: Vec<(Vec<Option<&str>>, Vec<Option<&str>>, Vec<usize>)> = match &replay {
+                Some(case) if case.get("history").is_some() => {
+                    let h = &case["history"];
+                    let f: Vec<Option<String>> = serde_json::from_value(h["first"].clone()).unwrap();
+                    let s2: Vec<Option<String>> = serde_json::from_value(h["second"].clone()).unwrap();
+                    let o: Vec<usize> = serde_json::from_value(h["order"].clone()).unwrap();
+                    let leak = |v: Vec<Option<String>>| -> Vec<Option<&'static str>> { v.into_iter().map(|x| x.map(|s| &*Box::leak(s.into_boxed_str()))).collect() };
+                    vec![(leak(f), leak(s2), o)]
+                }
+                Some(_) => vec![],
+                None => history_specs(tier),
+            };
+            for (hi, (first, second, order)) in specs.iter().enumerate() {
+                histories += 1;
+                let name = format!("test:h{hi}");
+                let rel = |v: &str| content(&name, v, if v == "1.0.0" { 300 } else { 700 });
+                publish(&pub_cfg, &name, "1.0.0", rel("1.0.0"), true).await.unwrap_or_else(|e| mc_core::machinery_error(&format!("publishing {name}@1.0.0: {e:#}")));
+                let root = tmp.path().join(format!("hist-{hi}"));
+                let case = json!({"history": {"first": first, "second": second, "order": order}});
+                let label = |ks: &[Option<&str>]| -> Vec<String> { ks.iter().map(|v| format!("h{}", v.map(|v| format!("@{v}")).unwrap_or_default())).collect() };
+                let mut step = |stepno: usize, ks: &[Option<&str>], latest: &str, out: &Outcome, viols: &mut Vec<(Viol, Value)>| {
+                    match &out.result {
+                        Ok(entries) => {
+                            for k in ks {
+                                let v = k.unwrap_or(latest);
+                                let wanted = sha256_hex(&rel(v));
+                                match entries.iter().find(|(n, ver, _)| *n == name && ver.as_deref() == *k) {
+                                    None => viols.push((("C20/history/key-dropped".into(), format!("history {:?} -> publish 2.0.0 -> {:?} (order {order:?}), step {stepno}: no entry for {k:?}", label(first), label(second))), case.clone())),
+                                    Some((_, _, h)) if *h != wanted => viols.push((("C20/history/wrong-content".into(), format!("history {:?} -> publish 2.0.0 -> {:?} (order {order:?}), step {stepno}: key {k:?} did not get the content of release {v}", label(first), label(second))), case.clone())),
+                                    _ => {}
+                                }
+                            }
+                            if entries.len() != ks.len() {
+                                viols.push((("C20/history/result-size".into(), format!("step {stepno}: {} entries for {} keys", entries.len(), ks.len())), case.clone()));
+                            }
+                        }
+                        Err((class, n, _)) => viols.push((
+                            (format!("C20/history/spurious-error/{}", class.split(':').next().unwrap()), format!("history {:?} -> publish 2.0.0 -> {:?} (order {order:?}), step {stepno}: every key exists at that time but resolution failed with {class} {n}", label(first), label(second))),
+                            case.clone(),
+                        )),
+                    }
+                };
+                let named = |ks: &[Option<&str>]| -> Vec<(String, Option<String>)> { ks.iter().map(|v| (name.clone(), v.map(|v| v.to_string()))).collect() };
+                let out1 = execute_named(&addr, &root, &named(first), None).await;
+                step(1, first, "1.0.0", &out1, &mut viols);
+                publish(&pub_cfg, &name, "2.0.0", rel("2.0.0"), false).await.unwrap_or_else(|e| mc_core::machinery_error(&format!("publishing {name}@2.0.0: {e:#}")));
+                let out2 = execute_named(&addr, &root, &named(second), Some(order)).await;
+                step(2, second, "2.0.0", &out2, &mut viols);
+                history_executions += 2;
+                let _ = std::fs::remove_dir_all(&root);
+                *outcomes.entry(format!("history:{}", if out2.result.is_ok() { "Ok" } else { "Err" })).or_default() += 1;
+            }
+        }
         for (keys, sums) in per_list {
             if sums.len() > 1 {
                 viols.push((("C20/order-dependent-result".to_string(), format!("keys {keys:?}: {} different results over completion orders", sums.len())), json!({"keys": keys, "order": Value::Null})));
@@ -465,7 +555,9 @@ fn main() {
     }
     let mut cov = Map::new();
     cov.insert("states".into(), json!(lists_n));
-    cov.insert("transitions".into(), json!(schedules + free_runs));
+    cov.insert("transitions".into(), json!(schedules + free_runs + history_executions));
+    cov.insert("histories".into(), json!(histories));
+    cov.insert("history_rule".into(), json!("histories = resolve(first keys) -> a new release 2.0.0 is published -> resolve(second keys) on the SAME client storage, for every ordered list of 1-2 distinct keys among {h, h@1.0.0, h@2.0.0} as second keys and every completion order (first keys: h@1.0.0; thorough also h); each history uses its own package; oracle: every key gets the content of the release it names, the unversioned key the latest release at that time"));
     cov.insert("traces_validated_against_impl".into(), json!(schedules));
     if samples.items.is_empty() {
         samples.items.push(json!({"note": "replay or tiny run"}));
